@@ -89,6 +89,9 @@ func ParseMember(b []byte) (*Member, error) {
 	if m.Size > MaxMember {
 		return nil, fmt.Errorf("member of %d bytes", m.Size)
 	}
+	if m.Size < p+8 {
+		return nil, fmt.Errorf("BSIZE %d is smaller than the member's own header and trailer", bsize)
+	}
 	if len(b) < m.Size {
 		return nil, ErrPartial
 	}
